@@ -3,6 +3,7 @@ package main
 import (
 	"fmt"
 	"go/constant"
+	"go/types"
 
 	"golang.org/x/tools/go/packages"
 	"golang.org/x/tools/go/ssa"
@@ -31,7 +32,7 @@ func (c *Ctx) runSignMap(rule string, pkgs []*packages.Package) {
 			switch fn.Name() {
 			case "ApplyBounds":
 				c.signMapBounds(rule, fn)
-			case "ApplyDistance":
+			case "ApplyDistance", "MetaballDistBound":
 				c.signMapDistance(rule, fn)
 			}
 		}
@@ -55,6 +56,9 @@ func signIndefinite(v ssa.Value, depth int) bool {
 			if f.Pkg != nil && f.Pkg.Pkg.Path() == "math" && (f.Name() == "Abs" || f.Name() == "Sqrt" || f.Name() == "Exp") {
 				return false
 			}
+			if f.Signature.Recv() != nil && isCoordType(f.Signature.Recv().Type()) && (f.Name() == "MaxCoord" || f.Name() == "MinCoord" || f.Name() == "Sum") && len(x.Call.Args) == 1 {
+				return signIndefinite(x.Call.Args[0], depth+1)
+			}
 			if f.Signature.Recv() != nil && isCoordType(f.Signature.Recv().Type()) && (f.Name() == "Norm" || f.Name() == "NormSquared" || f.Name() == "Dist" || f.Name() == "Abs" || f.Name() == "SquaredDist") {
 				return false
 			}
@@ -71,8 +75,71 @@ func signIndefinite(v ssa.Value, depth int) bool {
 		return true
 	case *ssa.Convert:
 		return signIndefinite(x.X, depth+1)
+	case *ssa.UnOp:
+		// an unexported field that only ever receives non-negative values
+		if x.Op.String() == "*" {
+			if fa, ok := x.X.(*ssa.FieldAddr); ok {
+				if f := fieldOf(fa); f != nil && !f.Exported() && x.Parent() != nil && x.Parent().Pkg != nil {
+					return !fieldNonNegative(x.Parent().Pkg, f, depth+1)
+				}
+			}
+		}
 	}
 	return true
+}
+
+var fieldSignMemo = map[*types.Var]int{} // 1 non-negative, 2 unknown
+
+// fieldNonNegative: every store into the (unexported) field anywhere in its
+// package writes a value of definite non-negative sign, and there is one.
+func fieldNonNegative(pkg *ssa.Package, f *types.Var, depth int) bool {
+	if m, ok := fieldSignMemo[f]; ok {
+		return m == 1
+	}
+	fieldSignMemo[f] = 2
+	stores, ok := 0, true
+	var visit func(fn *ssa.Function)
+	visit = func(fn *ssa.Function) {
+		for _, b := range fn.Blocks {
+			for _, ins := range b.Instrs {
+				st, isSt := ins.(*ssa.Store)
+				if !isSt {
+					continue
+				}
+				fa, isFA := st.Addr.(*ssa.FieldAddr)
+				if !isFA || fieldOf(fa) != f {
+					continue
+				}
+				stores++
+				if signIndefinite(st.Val, depth+1) {
+					ok = false
+				}
+			}
+		}
+		for _, a := range fn.AnonFuncs {
+			visit(a)
+		}
+	}
+	for _, m := range pkg.Members {
+		switch x := m.(type) {
+		case *ssa.Function:
+			visit(x)
+		case *ssa.Type:
+			for _, t := range []types.Type{x.Type(), types.NewPointer(x.Type())} {
+				ms := pkg.Prog.MethodSets.MethodSet(t)
+				for i := 0; i < ms.Len(); i++ {
+					if fn := pkg.Prog.MethodValue(ms.At(i)); fn != nil && fn.Pkg == pkg {
+						visit(fn)
+					}
+				}
+			}
+		}
+	}
+	if ok && stores > 0 {
+		fieldSignMemo[f] = 1
+		return true
+	}
+	return false
 }
 
 func coordScaleCall(v ssa.Value) (recv, factor ssa.Value, ok bool) {
@@ -152,24 +219,40 @@ func (c *Ctx) signMapDistance(rule string, fn *ssa.Function) {
 	}
 	d := fn.Params[1]
 	n := 0
+	isProd := func(v ssa.Value) (*ssa.BinOp, bool) {
+		bin, ok := v.(*ssa.BinOp)
+		return bin, ok && (bin.Op.String() == "*" || bin.Op.String() == "/")
+	}
 	for _, b := range fn.Blocks {
 		for _, ins := range b.Instrs {
-			ret, ok := ins.(*ssa.Return)
-			if !ok || len(ret.Results) != 1 {
+			root, ok := isProd2(ins)
+			if !ok {
 				continue
 			}
-			// factors of the returned product (numerators and denominators)
+			// only the root of a product tree
+			inner := false
+			for _, ref := range *root.Referrers() {
+				if rv, ok := ref.(ssa.Value); ok {
+					if _, p := isProd(rv); p {
+						inner = true
+					}
+				}
+			}
+			if inner {
+				continue
+			}
+			// factors of the product (numerators and denominators)
 			var factors []ssa.Value
 			var flatten func(v ssa.Value)
 			flatten = func(v ssa.Value) {
-				if bin, ok := v.(*ssa.BinOp); ok && (bin.Op.String() == "*" || bin.Op.String() == "/") {
+				if bin, ok := isProd(v); ok {
 					flatten(bin.X)
 					flatten(bin.Y)
 					return
 				}
 				factors = append(factors, v)
 			}
-			flatten(ret.Results[0])
+			flatten(root)
 			hasD := false
 			var other ssa.Value
 			for _, f := range factors {
@@ -186,12 +269,17 @@ func (c *Ctx) signMapDistance(rule string, fn *ssa.Function) {
 			c.analysed(qname(fn))
 			key := fmt.Sprintf("%s product#%d", qname(fn), n)
 			if signIndefinite(other, 0) && !absByBranch(other, b) {
-				c.bad(rule, key, ret.Pos(), "a distance multiplied by a factor of unknown sign: a negative factor yields a negative length (and flips the sign of a transformed SDF)")
+				c.bad(rule, key, root.Pos(), "a distance multiplied by a factor of unknown sign: a negative factor yields a negative length (and flips the sign of a transformed SDF or the direction of a metaball bound)")
 			} else {
-				c.ok(rule, key, ret.Pos(), "distance scaled by a non-negative factor")
+				c.ok(rule, key, root.Pos(), "distance scaled by a non-negative factor")
 			}
 		}
 	}
+}
+
+func isProd2(ins ssa.Instruction) (*ssa.BinOp, bool) {
+	bin, ok := ins.(*ssa.BinOp)
+	return bin, ok && (bin.Op.String() == "*" || bin.Op.String() == "/")
 }
 
 // absByBranch: the hand-written absolute value - x where a dominating test
@@ -240,4 +328,75 @@ func absByBranch(v ssa.Value, at *ssa.BasicBlock) bool {
 		return true
 	}
 	return false
+}
+
+// IDBOUNDS: a bounds map that returns its arguments unchanged is right only
+// for a transform that moves no point (the degenerate box [p, p] has to
+// contain the image of p). Reported: ApplyBounds returns (min, max) as given
+// on every path while the sibling Apply can return something other than its
+// argument.
+func (c *Ctx) runIdentityBounds(rule string, pkgs []*packages.Package) {
+	for _, p := range pkgs {
+		if p == nil {
+			continue
+		}
+		for _, fn := range c.srcFuncs(p) {
+			if fn.Name() != "ApplyBounds" || fn.Signature.Recv() == nil || len(fn.Params) != 3 || fn.Signature.Results().Len() != 2 {
+				continue
+			}
+			// the sibling point map
+			var apply *ssa.Function
+			for _, t := range []types.Type{fn.Signature.Recv().Type()} {
+				if sel := c.Prog.MethodSets.MethodSet(t).Lookup(fn.Pkg.Pkg, "Apply"); sel != nil {
+					apply = c.Prog.MethodValue(sel)
+				}
+			}
+			if apply == nil || apply.Blocks == nil || len(apply.Params) != 2 {
+				continue
+			}
+			c.analysed(qname(fn))
+			key := qname(fn) + " bounds of a map that moves points"
+			identity, moves := true, false
+			for _, b := range fn.Blocks {
+				if ret, ok := b.Instrs[len(b.Instrs)-1].(*ssa.Return); ok {
+					if len(ret.Results) != 2 || loadedParam(ret.Results[0]) != fn.Params[1] || loadedParam(ret.Results[1]) != fn.Params[2] {
+						identity = false
+					}
+				}
+			}
+			for _, b := range apply.Blocks {
+				if ret, ok := b.Instrs[len(b.Instrs)-1].(*ssa.Return); ok {
+					if len(ret.Results) != 1 || loadedParam(ret.Results[0]) != apply.Params[1] {
+						moves = true
+					}
+				}
+			}
+			if identity && moves {
+				c.bad(rule, key, fn.Pos(), "ApplyBounds returns the box it was given although Apply moves points: the image of a box whose face lies where points move is not enclosed")
+			} else {
+				c.ok(rule, key, fn.Pos(), "the bounds map is not the identity (or the point map is)")
+			}
+		}
+	}
+}
+
+// loadedParam: v is a parameter, or a load of the cell a parameter was spilled to
+// (named results / address-taken parameters), with that parameter as its only
+// stored value.
+func loadedParam(v ssa.Value) ssa.Value {
+	if un, ok := v.(*ssa.UnOp); ok && un.Op.String() == "*" {
+		if al, ok := un.X.(*ssa.Alloc); ok {
+			var only ssa.Value
+			for _, ref := range *al.Referrers() {
+				if st, ok := ref.(*ssa.Store); ok && st.Addr == ssa.Value(al) {
+					if only != nil && only != st.Val {
+						return nil
+					}
+					only = st.Val
+				}
+			}
+			return only
+		}
+	}
+	return v
 }
